@@ -229,6 +229,9 @@ def compare(cases, impls):
                 diffs.append(f"recorded minimum_gap {pm} vs model {m['mingap']}")
             if ob(pf) != m["flanks"]:
                 diffs.append(f"recorded erase_flanks {pf} vs model {m['flanks']}")
+            for k in ("keep_unary",):          # extra simplify keywords are recorded too (since /repo adc1393)
+                if k in kw and params.get(k) != kw[k]:
+                    diffs.append(f"recorded {k} {params.get(k)!r} vs given {kw[k]!r}")
             pi = params.get("delete_intervals")
             if pi is not None and [f2h(x) for iv in pi for x in iv] != m["ivs"]:
                 diffs.append("recorded delete_intervals differ from the model's")
